@@ -229,4 +229,20 @@ theorem links_existing_aborts (dir : String) (nc : Bool) (l : Nat) (fr : List St
     links dir nc ((l, fr) :: rest) s = (s, false) := by
   simp [links, h]
 
+/-- the directory a complete run leaves does not depend on the order of the CSV rows -/
+theorem links_order_independent (dir : String) (nc : Bool) (rows rows' : List (Nat × List String))
+    (hp : rows.Perm rows') (hd : (rows.map (·.1)).Nodup) (name : String) :
+    linkGet (links dir nc rows []).1 name = linkGet (links dir nc rows' []).1 name := by
+  have hd' : (rows'.map (·.1)).Nodup := (hp.map _).nodup_iff.mp hd
+  have hf : ∀ rs : List (Nat × List String), ∀ r ∈ rs, linkGet ([] : LinkStore) (linkName dir r.1 nc) = none := by
+    intro rs r _; simp [linkGet]
+  obtain ⟨_, a2, a3⟩ := links_spec dir nc rows [] hd (hf rows)
+  obtain ⟨_, b2, b3⟩ := links_spec dir nc rows' [] hd' (hf rows')
+  by_cases h : ∃ r ∈ rows, name = linkName dir r.1 nc
+  · obtain ⟨r, hr, rfl⟩ := h
+    rw [a2 r hr, b2 r (hp.mem_iff.mp hr)]
+  · have h1 : ∀ r ∈ rows, name ≠ linkName dir r.1 nc := fun r hr he => h ⟨r, hr, he⟩
+    have h2 : ∀ r ∈ rows', name ≠ linkName dir r.1 nc := fun r hr he => h ⟨r, hp.mem_iff.mpr hr, he⟩
+    rw [a3 name h1, b3 name h2]
+
 end NgVerif.Mesh
